@@ -71,8 +71,20 @@ def setup_hta_env() -> None:
 _MOD = None
 
 
+def _limit_memory() -> None:
+    """a runaway execution must fail with MemoryError instead of taking the machine down"""
+    try:
+        import resource
+
+        lim = int(os.environ.get("VERIF_MEM_LIMIT_GB", "8")) * 1024 ** 3
+        resource.setrlimit(resource.RLIMIT_AS, (lim, lim))
+    except Exception:
+        pass
+
+
 def _worker_init(modname: str) -> None:
     global _MOD
+    _limit_memory()
     os.environ["PYTHONHASHSEED"] = os.environ.get("PYTHONHASHSEED", "0")
     setup_hta_env()
     _MOD = importlib.import_module(modname)
@@ -129,6 +141,48 @@ def _work(chunk: List[Any]) -> Dict[str, Any]:
     return out
 
 
+class _Peek:
+    pass
+
+
+def _is_exhausted(chunk_iter) -> bool:
+    return False
+
+
+def _isolate(modname: str, worlds_list: List[Any], absorb) -> None:
+    """run each world in its own fresh process; a world whose process dies is reported as a violation"""
+    import tempfile
+    from concurrent.futures import ThreadPoolExecutor
+
+    def one(w):
+        with tempfile.NamedTemporaryFile("w", suffix=".json", delete=False) as fh:
+            json.dump(dict(world=w), fh, default=str)
+            path = fh.name
+        try:
+            p = subprocess.run([sys.executable, "-m", "mc.check", modname.split(".")[-1].upper(), "--replay", path, "--json", "--full"],
+                               cwd=VERIF, capture_output=True, text=True, env=dict(os.environ, PYTHONHASHSEED="0"), timeout=120, preexec_fn=_limit_memory)
+            lines = [ln for ln in p.stdout.splitlines() if ln.startswith("{")]
+            if lines:
+                r = json.loads(lines[-1])["result"]
+                return w, r
+            return w, dict(viol=[(f"crash/worker-process-died/rc={p.returncode}", (p.stderr or "")[-600:])], nontrivial=False,
+                           outcome="died", execs=1)
+        except subprocess.TimeoutExpired:
+            return w, dict(viol=[("crash/worker-process-hung", "timeout 120s")], nontrivial=False, outcome="hung", execs=1)
+        finally:
+            os.unlink(path)
+
+    with ThreadPoolExecutor(max_workers=os.cpu_count() or 4) as tp:
+        for w, r in tp.map(one, worlds_list):
+            out = dict(n=1, nontrivial=1 if r.get("nontrivial") else 0, outcomes=set(), execs=int(r.get("execs", 1)),
+                       xtrans=int(r.get("extra_transitions", 0)), xstates=int(r.get("extra_states", 0)),
+                       viols=[(sg, w, dt) for sg, dt in r.get("viol", [])])
+            oc = r.get("outcome")
+            if oc is not None:
+                out["outcomes"].add(hashlib.md5(str(oc).encode()).hexdigest()[:12])
+            absorb(out)
+
+
 def _chunks(it: Iterator[Any], size: int) -> Iterator[List[Any]]:
     buf: List[Any] = []
     for w in it:
@@ -163,36 +217,64 @@ def run(modname: str, tier: str, seed: int, workers: int) -> int:
     samples: List[Any] = []
     gen = mod.worlds(tier, stats)
     ctx = mp.get_context("fork")
-    with ProcessPoolExecutor(max_workers=workers, mp_context=ctx, initializer=_worker_init,
-                             initargs=(modname,)) as ex:
-        pending = set()
-        chunk_iter = _chunks(gen, chunk)
-        exhausted = False
-        nsub = 0
-        while True:
-            while not exhausted and len(pending) < workers * 3:
-                try:
-                    c = next(chunk_iter)
-                except StopIteration:
-                    exhausted = True
+    chunk_iter = _chunks(gen, chunk)
+    exhausted = False
+    nsub = 0
+    redo: List[Any] = []          # worlds whose worker process died (pool broken): re-run one per subprocess
+    pool_breaks = 0
+
+    def absorb(r):
+        for k in ("n", "nontrivial", "execs", "xtrans", "xstates"):
+            agg[k] += r[k]
+        agg["outcomes"] |= r["outcomes"]
+        for sig, w, detail in r["viols"]:
+            s = sigs.setdefault(sig, dict(count=0, world=None, detail=None))
+            s["count"] += 1
+            if w is not None and (s["world"] is None or world_size(w) < world_size(s["world"])):
+                s["world"], s["detail"] = w, detail
+
+    while not exhausted:
+        broken = False
+        with ProcessPoolExecutor(max_workers=workers, mp_context=ctx, initializer=_worker_init,
+                                 initargs=(modname,)) as ex:
+            pending: Dict[Any, List[Any]] = {}
+            while True:
+                while not exhausted and not broken and len(pending) < workers * 3:
+                    try:
+                        c = next(chunk_iter)
+                    except StopIteration:
+                        exhausted = True
+                        break
+                    if nsub in (0, 7, 31) and len(samples) < 4:
+                        samples.append(c[(seed + nsub) % len(c)])
+                    nsub += 1
+                    pending[ex.submit(_work, c)] = c
+                if not pending:
                     break
-                if nsub in (0, 7, 31) and len(samples) < 4:
-                    samples.append(c[(seed + nsub) % len(c)])
-                nsub += 1
-                pending.add(ex.submit(_work, c))
-            if not pending:
-                break
-            done, pending = wait(pending, return_when=FIRST_COMPLETED)
-            for f in done:
-                r = f.result()
-                for k in ("n", "nontrivial", "execs", "xtrans", "xstates"):
-                    agg[k] += r[k]
-                agg["outcomes"] |= r["outcomes"]
-                for sig, w, detail in r["viols"]:
-                    s = sigs.setdefault(sig, dict(count=0, world=None, detail=None))
-                    s["count"] += 1
-                    if w is not None and (s["world"] is None or world_size(w) < world_size(s["world"])):
-                        s["world"], s["detail"] = w, detail
+                done, _ = wait(list(pending), return_when=FIRST_COMPLETED)
+                for f in done:
+                    c = pending.pop(f)
+                    try:
+                        absorb(f.result())
+                    except Exception:  # BrokenProcessPool: some worker died abruptly (segfault / stack overflow / kill)
+                        broken = True
+                        redo.extend(c)
+                if broken:
+                    for f, c in list(pending.items()):
+                        try:
+                            absorb(f.result(timeout=0.01))
+                        except Exception:
+                            redo.extend(c)
+                    pending.clear()
+                    break
+        if broken:
+            pool_breaks += 1
+            exhausted = False if not _is_exhausted(chunk_iter) else True
+            _isolate(modname, redo, absorb)
+            redo = []
+            if pool_breaks > 20:
+                print(f"HARNESS-ERROR property={pid} worker pool broke {pool_breaks} times")
+                return 2
     wall = time.time() - t0
     import fnmatch
 
@@ -307,7 +389,7 @@ def confirm_replay(modname: str, path: str, sig: str):
     return True, ""
 
 
-def replay(modname: str, path: str, as_json: bool) -> int:
+def replay(modname: str, path: str, as_json: bool, full: bool = False) -> int:
     setup_hta_env()
     mod = importlib.import_module(modname)
     if hasattr(mod, "worker_init"):
@@ -317,7 +399,13 @@ def replay(modname: str, path: str, as_json: bool) -> int:
     r = safe_check(mod, rec["world"])
     sigs = [s for s, _ in r["viol"]]
     if as_json:
-        print(json.dumps(dict(signatures=sigs)))
+        if full:
+            print(json.dumps(dict(signatures=sigs, result=dict(viol=[[a, b] for a, b in r["viol"]], nontrivial=bool(r.get("nontrivial")),
+                                                               outcome=str(r.get("outcome"))[:300], execs=r.get("execs", 1),
+                                                               extra_transitions=r.get("extra_transitions", 0),
+                                                               extra_states=r.get("extra_states", 0))), default=str))
+        else:
+            print(json.dumps(dict(signatures=sigs)))
     else:
         for s, d in r["viol"]:
             print("VIOLATION", s)
